@@ -8,6 +8,27 @@ ASSUMPTIONS = conn.COMMON_ASSUMPTIONS
 
 
 def targets(eng):
-    return conn.targets_for(eng, ["_cleanup", "report_fatal_error", "send_messages", "process_packet", "force_disconnect", "_async_send_keep_alive",
+    from contracts import noise
+    from pyvc.engine import Engine
+    return _noise_targets() + conn.targets_for(eng, ["_cleanup", "report_fatal_error", "send_messages", "process_packet", "force_disconnect", "_async_send_keep_alive",
                                   "_async_pong_not_received", "_handle_disconnect_request_internal", "_connect_init_frame_helper",
                                   "start_connection", "finish_connection", "disconnect", "send_messages_await_response_complex"], ["C08"])
+
+
+def _noise_targets():
+    """The frame-helper side of C08 runs in its own engine instance (its model of the connection differs from conn_model's)."""
+    from contracts import noise
+    from pyvc.engine import Engine
+    from pyvc.sidecar import Target
+    out = []
+    for name in ("close", "_handle_closed", "data_received"):
+        def run(eng, opts, name=name):
+            e2 = Engine()
+            ts = noise.targets_for(e2, [name], ["C08"])
+            ts[0].run(e2, opts)
+            eng.obligations.extend(e2.obligations)
+            eng.assumptions_used |= e2.assumptions_used
+        from contracts import native_noise
+        out.append(Target("_frame_helper.noise.APINoiseFrameHelper." + name, "contract", run, functions=["aioesphomeapi._frame_helper.noise.APINoiseFrameHelper." + name],
+                          bounded=native_noise.bounded_noise_close))
+    return out
